@@ -285,6 +285,12 @@ func (e *Engine) intrinsic(st *State, f *Frame, fn *ssa.Function, args []Value, 
 	// ---- formatting: opaque strings ----
 	case "fmt.Sprintf", "fmt.Sprint", "fmt.Sprintln":
 		e.res.Stubs[full]++
+		// remember the operands so that harnesses can observe what was formatted (vFmtArg)
+		if sl, ok := args[len(args)-1].(*SliceVal); ok && sl.obj != 0 {
+			if arr, ok := getAt(st.heap[sl.obj].val, sl.path).(*ArrayVal); ok {
+				st.fmtArgs = append([]Value(nil), arr.e...)
+			}
+		}
 		return ret(e.opaqueStr(st, "fmt")), true
 	case "fmt.Errorf":
 		e.res.Stubs[full]++
@@ -505,6 +511,21 @@ func (e *Engine) harnessIntrinsic(st *State, f *Frame, fn *ssa.Function, name st
 			n += c
 		}
 		return ret(c64(int64(n)))
+	case "vFmtArg":
+		// integer operand k of the most recent fmt.Sprintf call, as uint64
+		k := asTerm(args[0])
+		if !k.IsConst() || int(k.k) >= len(st.fmtArgs) {
+			unsupp("vFmtArg index")
+		}
+		iv, ok := st.fmtArgs[k.k].(*IfaceVal)
+		if !ok || iv.t == nil {
+			unsupp("vFmtArg operand")
+		}
+		t, ok := iv.v.(*Term)
+		if !ok {
+			unsupp("vFmtArg operand is not an integer")
+		}
+		return ret(Resize(t, 64, isSigned(iv.t)))
 	case "vMutexFree":
 		p := args[0].(*PtrVal)
 		return ret(Bool(st.locks[e.lockKey(st, p)] == 0))
